@@ -9,9 +9,10 @@ the compiled interpreter by the trace correspondence of checks C01/C13. What nee
 shape of the token stream: it is accepted by the nesting automaton of `Spec.Nesting`
 (every before has its after; exits, then transitions, then entries inside a micro-step bracket;
 content only inside an exit, transition, entry or the completion; nothing else outside a
-bracket; never two stable-configuration notices without an event or micro-step in between) -
-for every chart, both engines, every sequence of API operations (steps, external events at any
-point, cancellation, reset, destruction), every length.
+bracket; never two stable-configuration notices without an event or micro-step in between, and
+`step` reports IDLE only when such a notice was the last thing that happened) -
+for every chart, both engines, every sequence of API operations (steps, external events and internal
+events from outside - a delayed send that fires - at any point, cancellation, reset, destruction), every length.
 -/
 namespace UscxmlVerif.Properties.C13
 open UscxmlVerif UscxmlVerif.Model UscxmlVerif.Model.Large UscxmlVerif.Model.Api UscxmlVerif.Spec.Nesting UscxmlVerif.Proofs.Nest
@@ -29,26 +30,34 @@ theorem stepNest_pass (e e' : EState) (hs : e'.spontaneous = e.spontaneous) (hst
     (h : ∀ stk, Nest stk stk e.x e'.x) : StepNest e e' := by
   intro stk hb
   refine ⟨stk, ?_, h stk⟩
-  rcases hb with h0 | ⟨h0, h1, h2⟩
-  · exact Or.inl h0
+  refine ⟨by rw [hst, hp]; exact hb.1, ?_⟩
+  rcases hb.2 with ⟨h0, h1⟩ | ⟨h0, h1, h2⟩
+  · exact Or.inl ⟨h0, by rw [hst]; exact h1⟩
   · exact Or.inr ⟨h0, by rw [hs]; exact h1, by rw [hst, hp]; exact h2⟩
 
-theorem engineStep_nest (eng : Engine) (c : Chart) (e : EState) : StepNest e (engineStep eng c e).1 := by
+theorem engineStep_nest (eng : Engine) (c : Chart) (e : EState) : StepNestR e (engineStep eng c e) := by
   cases eng
   · exact large_step_nest c e
   · exact fast_step_nest c e
 
-theorem stepOnce_nest (eng : Engine) (c : Chart) (a : Api) : StepNest a.e (stepOnce eng c a).1.e := by
+theorem stepOnce_nest (eng : Engine) (c : Chart) (a : Api) : StepNestR a.e ((stepOnce eng c a).1.e, (stepOnce eng c a).2) := by
   unfold stepOnce
   split
-  · exact StepNest.refl _
+  · exact fun stk hb => ⟨stk, hb, Nest.refl stk _, fun h => by cases h⟩
   · exact engineStep_nest eng c a.e
 
+/-- the automaton lets the result of `step` pass - IDLE only on the mark of a stable-configuration notice -/
+theorem step_ret (r : Ret) (stk : List Frame) (h : r = .idle → stk = [.stable]) : stepTok stk (.ret r.toString) = some stk := by
+  cases r
+  case idle => rw [h rfl]; rfl
+  all_goals rfl
+
 theorem stepObserved_nest (eng : Engine) (c : Chart) (a : Api) : StepNest a.e (stepObserved eng c a).1.e := by
+  intro stk hb
+  obtain ⟨stk', hb', hn, hidle⟩ := stepOnce_nest eng c a stk hb
+  refine ⟨stk', hb', ?_⟩
   unfold stepObserved
-  refine StepNest.trans (stepOnce_nest eng c a) ?_
-  refine stepNest_pass _ _ rfl rfl rfl (fun stk => ?_)
-  exact Nest.trans (nest_emit stk stk _ _ rfl) (nest_emit stk stk _ _ rfl)
+  exact Nest.trans hn (Nest.trans (nest_emit stk' stk' _ _ (step_ret _ stk' hidle)) (nest_emit stk' stk' _ _ rfl))
 
 theorem quiesce_nest (eng : Engine) (c : Chart) (fuel : Nat) (a : Api) : StepNest a.e (quiesce eng c fuel a).e := by
   induction fuel generalizing a with
@@ -69,6 +78,7 @@ theorem applyApi_nest (eng : Engine) (c : Chart) (a : Api) (op : Op) : StepNest 
     refine stepNest_pass _ _ rfl rfl rfl (fun stk => ?_)
     exact Nest.trans (nest_emit stk stk _ _ rfl) (nest_sendExt stk _ "")
   | getState => exact stepNest_pass _ _ rfl rfl rfl (fun stk => nest_emit stk stk _ _ rfl)
+  | inject ev => exact stepNest_pass _ _ rfl rfl rfl (fun stk => nest_raise stk _ ev)
   | reset => exact StepNest.refl _
   | destroy => exact StepNest.refl _
 
@@ -78,7 +88,7 @@ def toks (s : Session) : List Tok := (s.a.e.x.obs ++ s.past).reverse
 /-- the automaton has accepted everything so far and rests on a stack the engine's flags agree with -/
 def Good (s : Session) : Prop := ∃ stk, Base s.a.e stk ∧ runT [] (toks s) = some stk
 
-theorem good_init : Good {} := ⟨[], Or.inl rfl, rfl⟩
+theorem good_init : Good {} := ⟨[], ⟨fun _ => rfl, Or.inl ⟨rfl, rfl⟩⟩, rfl⟩
 
 theorem good_apply (eng : Engine) (c : Chart) (s : Session) (op : Op) (h : Good s) : Good (apply eng c s op) := by
   obtain ⟨stk, hb, hr⟩ := h
@@ -93,9 +103,9 @@ theorem good_apply (eng : Engine) (c : Chart) (s : Session) (op : Op) (h : Good 
     exact hrun
   have fresh : ∀ (n : String), Good { past := Tok.note n :: (s.a.e.x.obs ++ s.past), a := {} } := by
     intro n
-    refine ⟨stk, ?_, ?_⟩
-    · rcases hb with h0 | ⟨h0, _, _⟩
-      · exact Or.inl h0
+    refine ⟨stk, ⟨fun _ => rfl, ?_⟩, ?_⟩
+    · rcases hb.2 with ⟨h0, _⟩ | ⟨h0, _, _⟩
+      · exact Or.inl ⟨h0, rfl⟩
       · exact Or.inr ⟨h0, rfl, Or.inr rfl⟩
     · have : toks { past := Tok.note n :: (s.a.e.x.obs ++ s.past), a := {} } = toks s ++ [Tok.note n] := by
         simp [toks]
@@ -109,6 +119,7 @@ theorem good_apply (eng : Engine) (c : Chart) (s : Session) (op : Op) (h : Good 
   | receive ev => exact live (.receive ev)
   | cancel => exact live .cancel
   | getState => exact live .getState
+  | inject ev => exact live (.inject ev)
 
 theorem good_run (eng : Engine) (c : Chart) (ops : List Op) : Good (run eng c ops) := by
   unfold run
@@ -140,7 +151,7 @@ theorem notifications_well_nested (eng : Engine) (c : Chart) (ops : List Op) :
     wellNestedT (toks (run eng c ops)) = true := by
   obtain ⟨stk, hb, hr⟩ := good_run eng c ops
   unfold wellNestedT
-  rw [checkT_of_runT _ [] stk 0 hr (by rcases hb with h | ⟨h, _, _⟩ <;> simp [h])]
+  rw [checkT_of_runT _ [] stk 0 hr (by rcases hb.2 with ⟨h, _⟩ | ⟨h, _, _⟩ <;> simp [h])]
   rfl
 
 /-- the log the correspondence check compares with the compiled interpreter is the rendering of these tokens -/
@@ -153,5 +164,7 @@ example : wellNestedT [.bm, .bx "s"] = false := by decide
 example : wellNestedT [.bm, .be "t", .ae "t", .bx "s", .ax "s", .am] = false := by decide      -- entry before exit
 example : wellNestedT [.bm, .am, .st, .st] = false := by decide                               -- two notices, one macrostep
 example : wellNestedT [.bc 1, .ac 1] = false := by decide                                      -- content outside a bracket
+example : wellNestedT [.bm, .am, .st, .ret "IDLE", .bpe "e", .ret "MICROSTEPPED", .ret "IDLE"] = false := by decide   -- a macrostep without its notice
+example : wellNestedT [.bm, .am, .st, .ret "IDLE", .bpe "e", .ret "MICROSTEPPED", .st, .ret "MACROSTEPPED", .ret "IDLE"] = true := by decide
 
 end UscxmlVerif.Properties.C13
